@@ -131,6 +131,43 @@ func ruleGRDstats(w *World, r *Report) {
 		}
 		if u.delsDocLen {
 			r.Cond(u.totalDocs && u.totalLen && u.avgLen, "GRD-stats", name+":delete-keeps-totals", w.Pos(u.pos), "removal adjusts all four statistics", name+" forgets a document length without adjusting the totals")
+			// decided on SSA: every decrement of TotalDocs is reached only on the present edge of a comma-ok look-up in
+			// DocLengths (any nesting: an enclosing if, an early continue, a flag)
+			u.decGuardedByHad = false
+			if fn := w.SSAFunc(fi.Obj); fn != nil {
+				isDec := func(in ssa.Instruction) bool {
+					st, ok := in.(*ssa.Store)
+					if !ok {
+						return false
+					}
+					fa, ok := st.Addr.(*ssa.FieldAddr)
+					if !ok {
+						return false
+					}
+					if _, f := structFieldName(fa.X.Type(), fa.Field); f != "TotalDocs" {
+						return false
+					}
+					bo, ok := st.Val.(*ssa.BinOp)
+					if !ok || bo.Op != token.SUB {
+						return false
+					}
+					c, ok := constInt(bo.Y)
+					return ok && c == 1
+				}
+				isHad := func(in ssa.Instruction) bool {
+					lk, ok := in.(*ssa.Lookup)
+					return ok && lk.CommaOk && mapFieldOf(lk.X) == "DocLengths"
+				}
+				decs := findInstrs(fn, isDec)
+				all := len(decs) > 0 && len(findInstrs(fn, isHad)) > 0
+				for _, d := range decs {
+					dd := d
+					if ok, _ := mustPassGuard(fn, func(in ssa.Instruction) bool { return in == dd }, isHad, func(in ssa.Instruction) ssa.Value { return extractOfValue(in.(*ssa.Lookup), 1) }, true, nil); !ok {
+						all = false
+					}
+				}
+				u.decGuardedByHad = all
+			}
 			r.Cond(u.decGuardedByHad, "GRD-stats", name+":delete-only-if-counted", w.Pos(u.pos), "TotalDocs is decremented only for a node that was counted", name+" does not decide \"was this node counted\" by the presence of its DocLengths entry (comma-ok lookup): either it decrements TotalDocs for nodes that were never counted, or — testing the stored length — it keeps counting deleted documents whose text analysed to zero tokens; N and the average length drift and BM25 order changes")
 		}
 		if u.removesPostingsOfNode {
